@@ -186,7 +186,8 @@ def gen(ctx, encs):
             cases.append((relaxed, bytes(b), list(runs), fam))
 
     def short_runs(b):
-        return ['ALL', 'DRIP/0', 'DRIP/1'] if len(b) <= 48 else ['0/', 'DRIP/0', 'DRIP/1', 'DRIP/2'] + rnd_runs(rnd, len(b))[1:]
+        drip = ['DRIP/0', 'DRIP/1'] if (ctx.thorough or rnd.random() < 0.25) else []
+        return ['ALL'] + drip if len(b) <= 48 else ['0/', 'DRIP/0', 'DRIP/1', 'DRIP/2'] + rnd_runs(rnd, len(b))[1:]
     # (i) every valid encoding TLC generated from the spec's Encode, all three parser modes in turn
     for i, e in enumerate(encs):
         add((0, 1, -1)[i % 3], e, short_runs(e), 'spec-encoding')
@@ -201,11 +202,11 @@ def gen(ctx, encs):
     # (iii) single-byte mutations (replace / delete / insert / duplicate) of valid encodings
     base = list(encs)
     rnd.shuffle(base)
-    base = base[:(600 if ctx.thorough else 120)] + WITNESSES[:12]
+    base = base[:(600 if ctx.thorough else 60)] + WITNESSES[:12]
     for e in base:
         pos = list(range(len(e)))
         if not ctx.thorough and len(pos) > 10:
-            pos = sorted(rnd.sample(pos, 10))
+            pos = sorted(rnd.sample(pos, 8))
         for p in pos:
             reps = REPR if ctx.thorough else rnd.sample(REPR, 5)
             for r in reps:
@@ -216,7 +217,7 @@ def gen(ctx, encs):
             add(rnd.choice([0, 1]), e[:p] + e[p + 1:], short_runs(e), 'mutation')
             add(rnd.choice([0, 1]), e[:p] + e[p:p + 1] + e[p:], short_runs(e), 'mutation')
     # (iii) seeded random bodies with random chunkings, extension and trailer syntax, schedules and capacities; mutated framing
-    nbig = 400 if ctx.thorough else 70
+    nbig = 400 if ctx.thorough else 50
     for i in range(nbig):
         top = 65536 if ctx.thorough else 8192
         n = rnd.choice([0, 1, 2, 15, 16, 17, 255, 256, 257, 1000, 4095, 4096, 4097, top - 1, top, rnd.randint(0, top), rnd.randint(0, 300), rnd.randint(0, 300)])
@@ -276,38 +277,88 @@ def drive(ctx, exe, cases):
 
 def project(o):
     """add ns / k (index of n in ns) - the only post-processing between the driver and TLC"""
-    ns = sorted({s['n'] for run in o['runs'] for s in run['steps']})
+    ns = sorted({s[0] for run in o['runs'] for s in run['steps']})
     idx = {n: i + 1 for i, n in enumerate(ns)}
     o['ns'] = ns
     for run in o['runs']:
         for s in run['steps']:
-            s['k'] = idx[s['n']]
+            s.append(idx[s[0]])
     return o
 
 
 # ---------------------------------------------------------------------------------------------------------------
-# witness classification (for known-finding matching); a deliberately small syntactic description of the failing run
+# TLC evaluation (private variant of ucheck.conformance that also collects which round of which schedule was refused)
 # ---------------------------------------------------------------------------------------------------------------
-HDR = re.compile(rb'^[0-9A-Fa-f]+[ \t]*((?:;|[ \t]+;).*?)([ \t]+)$', re.S)
+def conformance(ctx, cases, label, chunk, timeout=3000):
+    """-> ({case index: [(run, step), ..]} refused by the P-layer, same for the I-layer)"""
+    import concurrent.futures
+    module, cfg = os.path.join(SPEC, 'Conf_Chunked.tla'), os.path.join(SPEC, 'Conf_Chunked.cfg')
+    chunks = [cases[i:i + chunk] for i in range(0, len(cases), chunk)]
+    par = min(4, max(1, len(chunks)))
+    nw = max(1, vlib.NCPU // par)
+
+    def one(ci):
+        d = vlib.mkdirs(os.path.join(ctx.work, 'traces'))
+        path = os.path.join(d, '%s-%d.ndjson' % (label, ci))
+        with open(path, 'w') as f:
+            for c in chunks[ci]:
+                f.write(json.dumps(c, separators=(',', ':')) + '\n')
+        res = vlib.tlc(ctx, module, cfg, workers=nw, env={'TRACE': path}, timeout=timeout, args=['-continue'],
+                       label='%s-%d' % (label, ci), kind='conf')
+        fails = {'PFAIL': {}, 'IFAIL': {}}
+        for m in re.finditer(r'<<\s*"(PFAIL|IFAIL)",\s*(\d+),\s*(\d+),\s*(\d+)\s*>>', res.out):
+            fails[m.group(1)].setdefault(ci * chunk + int(m.group(2)) - 1, []).append((int(m.group(3)) - 1, int(m.group(4)) - 1))
+        viol = {'CaseOk': set(), 'ImplOk': set()}
+        for m in re.finditer(r'Invariant (\w+) is violated\.(.*?)(?=Error: Invariant|\Z)', res.out, re.S):
+            nums = re.findall(r'\bi = (\d+)', m.group(2))
+            if nums and m.group(1) in viol:
+                viol[m.group(1)].add(ci * chunk + int(nums[-1]) - 1)
+        if not viol['CaseOk'] and not viol['ImplOk'] and not res.clean:
+            raise vlib.MachineryError('conformance run failed (%s):\n%s' % (label, res.tail(40)))
+        if res.distinct < len(chunks[ci]) + 1:
+            raise vlib.MachineryError('conformance run evaluated %d of %d cases (%s):\n%s' % (res.distinct, len(chunks[ci]), label, res.tail(30)))
+        # a violated case without a PFAIL line was refused for the ub flag
+        return ({k: fails['PFAIL'].get(k, []) for k in viol['CaseOk']}, {k: fails['IFAIL'].get(k, []) for k in viol['ImplOk']})
+
+    prej, irej = {}, {}
+    with concurrent.futures.ThreadPoolExecutor(max_workers=par) as ex:
+        for pr, ir in ex.map(one, range(len(chunks))):
+            prej.update(pr)
+            irej.update(ir)
+    ctx.add('impl_traces', len(cases))
+    ctx.add('tlc_checked_cases', len(cases))
+    return prej, irej
 
 
-def classify(o):
-    """Compare the runs of one input with each other and describe the shape."""
+# ---------------------------------------------------------------------------------------------------------------
+# witness classification (for known-finding matching): a deliberately narrow syntactic description of the refused rounds
+# ---------------------------------------------------------------------------------------------------------------
+# the bytes delivered before some earlier round end with: chunk-ext value (token or quoted-string), then possibly blanks
+AFTER_EXT_VALUE_BLANKS = re.compile(rb'=[ \t\x0b\x0c\r]*(?:"(?:[^"\\]|\\.)*"|[!#$%&\'*+\-.^_`|~0-9A-Za-z]+)[ \t]*$', re.S)
+
+
+def classify(o, fails):
     inb = bytes(o['in'])
-    finals = {}
-    for run in o['runs']:
-        st = run['steps'][-1]
-        finals.setdefault((st['oc'], st['used'] if st['oc'] == 'Done' else -1, bytes(run['out'][:st['outn']]) if st['oc'] != 'Reject' else b''), []).append(run)
-    cls = {'segmentation_dependent': len({k[0] for k in finals}) > 1, 'shape': 'other', 'relaxed': o['relaxed'] != 0}
-    ocs = {k[0] for k in finals}
-    if cls['segmentation_dependent'] and ocs >= {'Reject'}:
-        # which chunk header line do the accepting runs get past?  Look for "<size>[ext] BWS CRLF" where the BWS follows an extension
-        for m in re.finditer(rb'(?:^|\r\n)([^\r\n]*)\r\n', inb):
-            h = HDR.match(m.group(1))
-            if h and not h.group(1).rstrip(b' \t').endswith(b';'):
-                cls['shape'] = 'blanks between the last chunk-ext and CRLF accepted when a parse round ends after them'
-                break
+    cls = {'kind': 'ub' if o['ub'] else 'result', 'shape': 'other'}
+    if not fails:
+        return cls
+    hit = 0
+    for r, s in fails:
+        steps = o['runs'][r]['steps']
+        # the refused round, or an earlier round of this schedule, began right after blanks that follow a chunk-ext value
+        if any(AFTER_EXT_VALUE_BLANKS.search(inb[:steps[j][0]]) for j in range(0, s)):
+            hit += 1
+    if hit == len(fails):
+        cls['shape'] = 'parse round resumed after blanks that follow a chunk-ext value'
     return cls
+
+
+def describe(o, fails):
+    out = []
+    for r, s in fails[:3]:
+        run = o['runs'][r]
+        out.append('caps=%s rounds=%s refused round #%d' % (run['caps'], [(st[0], st[1], st[2], st[3]) for st in run['steps']][:s + 2][-4:], s + 1))
+    return '; '.join(out)
 
 
 def run(ctx):
@@ -320,7 +371,7 @@ def run(ctx):
     outs, deaths = drive(ctx, exe, cases)
     for idx, rc, err in deaths:
         ctx.violation('decoder died (rc=%s) on input %r runs %s: %s' % (rc, cases[idx][1][:200], cases[idx][2], err[-400:]),
-                      {'class': {'kind': 'abort'}, 'input_hex': hx(cases[idx][1]), 'relaxed': cases[idx][0], 'runs': cases[idx][2]})
+                      {'class': {'kind': 'abort', 'shape': 'other'}, 'input_hex': hx(cases[idx][1]), 'relaxed': cases[idx][0], 'runs': cases[idx][2]})
     live = [i for i, o in enumerate(outs) if o is not None]
     recs = [project(outs[i]) for i in live]
     nruns = sum(len(r['caps']) for o in recs for r in o['runs'])
@@ -329,35 +380,33 @@ def run(ctx):
     # small cases in large chunks, large cases in small ones
     small = [j for j, o in enumerate(recs) if len(o['in']) <= 400]
     large = [j for j, o in enumerate(recs) if len(o['in']) > 400]
-    prej, irej = [], []
-    for label, idxs, chunk in (('chunked-small', small, 4000), ('chunked-large', large, 40)):
+    prej, irej = {}, {}
+    for label, idxs, chunk in (('chunked-small', small, 3000), ('chunked-large', large, 60)):
         if not idxs:
             continue
-        pr, ir = ucheck.conformance(ctx, os.path.join(SPEC, 'Conf_Chunked.tla'), os.path.join(SPEC, 'Conf_Chunked.cfg'),
-                                    [recs[j] for j in idxs], label, chunk=chunk, timeout=3000)
-        prej += [idxs[x] for x in pr]
-        irej += [idxs[x] for x in ir]
+        pr, ir = conformance(ctx, [recs[j] for j in idxs], label, chunk)
+        prej.update({idxs[x]: f for x, f in pr.items()})
+        irej.update({idxs[x]: f for x, f in ir.items()})
     ctx.log('TLC evaluated %d inputs: P-rejected %d, I-rejected %d' % (len(recs), len(prej), len(irej)))
     shown = set()
-    for j in sorted(prej):
+    ctx.cov['p_rejected_inputs'] = len(prej)
+    for j in sorted(prej, key=lambda x: (len(recs[x]['in']), x)):
         o = recs[j]
-        cls = classify(o)
-        cls['kind'] = 'ub' if o['ub'] else 'result'
+        cls = classify(o, prej[j])
         key = json.dumps(cls, sort_keys=True)
-        if key in shown and len(ctx.violations) + len(ctx.known) >= 1:
+        if key in shown:
             continue
         shown.add(key)
-        fin = sorted({(r['steps'][-1]['oc'], r['steps'][-1]['used'], bytes(r['out']).decode('latin-1')[:40]) for r in o['runs']})
-        ctx.violation('TeChunkedParser result is not what Chunked.tla allows: input %r relaxed=%d; final results over the schedules: %s' % (
-            bytes(o['in'])[:120], o['relaxed'], fin[:4]),
+        ctx.violation('TeChunkedParser does not do what Chunked.tla allows: input %r relaxed=%d: %s' % (
+            bytes(o['in'])[:120], o['relaxed'], describe(o, prej[j])),
             {'class': cls, 'input_hex': hx(bytes(o['in'])), 'relaxed': o['relaxed'], 'family': cases[live[j]][3],
-             'runs': [{'caps': r['caps'], 'steps': [[s['n'], s['oc'], s['used'], s['outn']] for s in r['steps']][:12]} for r in o['runs']][:12]})
+             'refused': [{'caps': o['runs'][r]['caps'], 'round': s + 1, 'rounds [delivered, outcome, consumed, decoded]': [st[:4] for st in o['runs'][r]['steps']][:s + 2][-6:]}
+                         for r, s in prej[j][:6]]})
         if len(ctx.violations) >= 5:
             break
-    pset = set(prej)
     for j in irej:
-        if j not in pset and len(ctx.drift) < 5:
-            ctx.drift.append('I-layer mismatch on input %r relaxed=%d' % (bytes(recs[j]['in'])[:80], recs[j]['relaxed']))
+        if j not in prej and len(ctx.drift) < 5:
+            ctx.drift.append('I-layer mismatch on input %r relaxed=%d: %s' % (bytes(recs[j]['in'])[:80], recs[j]['relaxed'], describe(recs[j], irej[j])))
     fam = {}
     for i in live:
         fam[cases[i][3]] = fam.get(cases[i][3], 0) + 1
@@ -368,22 +417,25 @@ def run(ctx):
     ctx.cov['final_outcomes'] = {}
     for o in recs:
         for r in o['runs']:
-            oc = r['steps'][-1]['oc']
+            oc = r['steps'][-1][1]
             ctx.cov['final_outcomes'][oc] = ctx.cov['final_outcomes'].get(oc, 0) + len(r['caps'])
     ctx.cov['max_input_bytes'] = max(len(o['in']) for o in recs)
     ctx.cov['ub_reports'] = sum(1 for o in recs if o['ub'])
     for o in (recs[0], recs[len(recs) // 3], recs[len(recs) // 2]):
         ctx.sample({'in': bytes(o['in'])[:80].decode('latin-1'), 'relaxed': o['relaxed'],
-                    'first_run': [[s['n'], s['oc'], s['used'], s['outn']] for s in o['runs'][0]['steps']][:6]})
+                    'first_schedule [delivered, outcome, consumed, decoded]': [st[:4] for st in o['runs'][0]['steps']][:6]})
     ctx.cov['rule'] = ('every valid encoding generated by TLC from Encode() over the MC domain; every string up to 3 (thorough: 4) bytes over '
                        'a 12-symbol class-representative alphabet; witnesses per stage transition/error exit; single-byte '
                        'replace/delete/insert/duplicate mutations of valid encodings; seeded random bodies up to 8 KiB (thorough: 64 KiB) '
                        'with random chunkings, chunk-ext and trailer syntax and framing mutations. Short inputs are delivered at every '
-                       'single split point with output capacities 1, 2, unlimited and one byte at a time; long ones at seeded random '
-                       'schedules/capacities. Every parse round of every schedule is compared by TLC with the reference on the delivered '
-                       'prefix. Inputs are de-duplicated; impl_steps counts parse rounds.')
+                       'single split point with output capacities 1, 2, unlimited and (a share of them) one byte at a time; long ones at '
+                       'seeded random schedules/capacities. Every parse round of every schedule is compared by TLC with the reference on '
+                       'the delivered prefix. Inputs are de-duplicated; impl_steps counts parse rounds, delivery_schedules counts '
+                       '(split schedule, capacity) pairs.')
     ctx.assumptions += ['trailer sections stay far below the 64 KB limit of Http1::Parser::grabMimeBlock (the limit is not part of the statement)',
                         'the driver drains the payload MemBuf whenever the parser asks for space, as the callers do; decoded bytes are '
                         'concatenated in the order they left the parser',
+                        'the reference results for successive prefixes are obtained by continuing the reference decoder; that this equals '
+                        'decoding from scratch is the segmentation law model-checked on the bounded domains of MC_Chunked',
                         'ASan/UBSan make memory errors and undefined behaviour observable on explored inputs only',
                         'driver linked like tests/testHttp1Parser (real http/one/*, parser/*, MemBuf.cc, mime_header.cc, SquidConfig.cc), compiled from the working tree']
